@@ -334,7 +334,12 @@ func runStreamsObs(c streamsCase, r *runCtx, setup func(h *streamsHist)) *stream
 				}
 				eh.readDone = true
 			case "readn":
+				closedBefore := eh.closeCalled && len(eh.closeRet) > 0
 				b, err := st.BufferReader().ReadBytes(op.N)
+				if err == nil && closedBefore {
+					fail("stream %d end %d: ReadBytes(%d) issued after the local Close had returned delivered %d bytes instead of a closed-stream error", st.id, e, op.N, len(b))
+					return
+				}
 				if err != nil {
 					eh.readErr = err.Error()
 				} else {
